@@ -19,6 +19,7 @@ DESUGAR = True
 PE = "plist::PlistEntry"
 EFB = "plist::PlistEntry::from_bytes"
 PFB = "plist::Plist::from_bytes"
+SFN = PFB      # the function holding the line scan: from_bytes itself, or a helper it hands the bytes to
 UNICODE_PREDICATES = ("char>::is_whitespace", "char>::is_alphabetic", "char>::is_numeric", "char>::is_alphanumeric",
                       "char>::is_lowercase", "char>::is_uppercase", "char>::is_control")
 
@@ -32,7 +33,7 @@ def scan_transfer(ctx, body, paths, guards):
     inloop = [(bb, g) for bb, g in guards.items() if body.in_any_loop(bb)]
     atend = [(bb, g) for bb, g in guards.items() if not body.in_any_loop(bb)]
     if len(inloop) != 1 or len(atend) != 1:
-        ctx.violation(R, PFB, "sites", "expected one in-loop and one end-of-input recording site, found %d and %d" % (len(inloop), len(atend)), fn_span(body))
+        ctx.violation(R, SFN, "sites", "expected one in-loop and one end-of-input recording site, found %d and %d" % (len(inloop), len(atend)), fn_span(body))
         return
     (ibb, (S, IDX, iatoms, ie)), (ebb, (S2, E2, eatoms, ee)) = inloop[0], atend[0]
 
@@ -40,9 +41,9 @@ def scan_transfer(ctx, body, paths, guards):
         return t[1] if isinstance(t, tuple) and t and t[0] == "havoc" else None
     start = hl(S)
     ok = start is not None and hl(S2) == start
-    ctx.check(ok, R, PFB, "start-role", "both sites record (start, ..) with the same line-start variable",
+    ctx.check(ok, R, SFN, "start-role", "both sites record (start, ..) with the same line-start variable",
               "the two recording sites do not use one line-start variable (%s vs %s)" % (term_str(S), term_str(S2)), fn_span(body))
-    ctx.check(is_call(strip_refs(E2), "[T]>::len") and strip_refs(call_args(strip_refs(E2))[0]) == ("param", 1), R, PFB, "end-of-input-bound", "(start, bytes.len())",
+    ctx.check(is_call(strip_refs(E2), "[T]>::len") and strip_refs(call_args(strip_refs(E2))[0]) == ("param", 1), R, SFN, "end-of-input-bound", "(start, bytes.len())",
               "the end-of-input site records %s as the line end, expected bytes.len()" % term_str(E2), body.span_of(ebb))
     if not ok:
         return
@@ -50,17 +51,17 @@ def scan_transfer(ctx, body, paths, guards):
     el = {hl(x) for (x, _, _) in eatoms} - {None}
     cursor = (il & el) - {start}
     aliases = (il | el) - cursor
-    ctx.check(len(cursor) == 1, R, PFB, "cursor-role", "one first-non-blank cursor tested at both sites", "first-non-blank cursor not identified: %s" % sorted(cursor), fn_span(body))
+    ctx.check(len(cursor) == 1, R, SFN, "cursor-role", "one first-non-blank cursor tested at both sites", "first-non-blank cursor not identified: %s" % sorted(cursor), fn_span(body))
     if len(cursor) != 1:
         return
     cur = next(iter(cursor))
     header = next((h for h, blks in body.loops.items() if ibb in blks), None)
     backs = [p for p in paths if p.end[0] == "back" and p.end[1] == header]
-    ctx.floor(R, PFB, "scan-loop back-edge paths", len(backs), 6)
+    ctx.floor(R, SFN, "scan-loop back-edge paths", len(backs), 6)
     # the byte under the cursor: the .1 sibling of the enumerate item whose .0 is the index
     item = IDX[1] if isinstance(IDX, tuple) and IDX[0] == "field" and IDX[2] == 0 else None
     ctx.check(item is not None and bool(find_calls(item, "Enumerate<I> as std::iter::Iterator>::next")) and
-              bool(find_calls(item, "[T]>::iter")) and mentions(item, lambda s: s == ("param", 1)), R, PFB, "index-role",
+              bool(find_calls(item, "[T]>::iter")) and mentions(item, lambda s: s == ("param", 1)), R, SFN, "index-role",
               "the line end recorded in the loop is the enumerate() index over bytes.iter()",
               "the in-loop line end %s is not the position of the current byte of `bytes`" % term_str(IDX), body.span_of(ibb))
     if item is None:
@@ -82,15 +83,15 @@ def scan_transfer(ctx, body, paths, guards):
     # initial values
     for l in sorted(aliases | cursor):
         init = S[3] if l == start else next((x[3] for (x, _, _) in iatoms + eatoms if hl(x) == l), None)
-        ctx.check(const_int(init) == 0, R, PFB, "init:%s" % body.local_name(l), "starts at 0", "%s starts at %s, expected 0" % (body.local_name(l), term_str(init)), fn_span(body), nontrivial=False)
+        ctx.check(const_int(init) == 0, R, SFN, "init:%s" % body.local_name(l), "starts at 0", "%s starts at %s, expected 0" % (body.local_name(l), term_str(init)), fn_span(body), nontrivial=False)
     flags = set()
     for p in backs:
         for c in p.conds():
             if isinstance(c.term, tuple) and c.term[0] == "havoc" and body.f["locals"][c.term[1]]["ty"] == "bool":
                 flags.add(c.term[1])
-                ctx.check(const_of(c.term[3]) is True, R, PFB, "init:%s" % body.local_name(c.term[1]), "trimming flag starts set",
+                ctx.check(const_of(c.term[3]) is True, R, SFN, "init:%s" % body.local_name(c.term[1]), "trimming flag starts set",
                           "the trimming flag %s starts as %s" % (body.local_name(c.term[1]), term_str(c.term[3])), fn_span(body), nontrivial=False)
-    ctx.check(len(flags) == 1, R, PFB, "flag-role", "one trimming flag", "trimming flag not identified: %s" % sorted(flags), fn_span(body))
+    ctx.check(len(flags) == 1, R, SFN, "flag-role", "one trimming flag", "trimming flag not identified: %s" % sorted(flags), fn_span(body))
     if len(flags) != 1:
         return
     flag = next(iter(flags))
@@ -120,29 +121,29 @@ def scan_transfer(ctx, body, paths, guards):
         inst = "newline=%s,trimming=%s,blank=%s" % row
         sp_ = body.span_of(p.blocks[-2]) if len(p.blocks) > 1 else fn_span(body)
         if nl is None:
-            ctx.violation(R, PFB, inst, "a scan-loop iteration does not test the current byte against '\\n'", sp_)
+            ctx.violation(R, SFN, inst, "a scan-loop iteration does not test the current byte against '\\n'", sp_)
             continue
         if nl:
             bad = [body.local_name(l) for l in sorted(aliases | cursor) if not idx_plus_1(p.env.get(l))]
-            ctx.check(not bad, R, PFB, inst + (":recorded" if pushed else ""), "line start, cursor := idx + 1", "after a newline %s is not reset to idx + 1 (%s)" % (
+            ctx.check(not bad, R, SFN, inst + (":recorded" if pushed else ""), "line start, cursor := idx + 1", "after a newline %s is not reset to idx + 1 (%s)" % (
                 bad, [term_str(p.env.get(l)) for l in sorted(aliases | cursor) if not idx_plus_1(p.env.get(l))]), sp_)
-            ctx.check(const_of(p.env.get(flag)) is True, R, PFB, inst + (":recorded" if pushed else "") + ":flag", "trimming flag := true",
+            ctx.check(const_of(p.env.get(flag)) is True, R, SFN, inst + (":recorded" if pushed else "") + ":flag", "trimming flag := true",
                       "after a newline the trimming flag is %s" % term_str(p.env.get(flag)), sp_, nontrivial=False)
             continue
         # inside a line: the line start never moves, nothing is recorded
         moved = [body.local_name(l) for l in sorted(aliases) if not unchanged(p, l)]
-        ctx.check(not moved and not pushed, R, PFB, inst + ":start", "line start unchanged, nothing recorded",
+        ctx.check(not moved and not pushed, R, SFN, inst + ":start", "line start unchanged, nothing recorded",
                   "inside a line %s" % ("a range is recorded" if pushed else "%s is modified" % moved), sp_)
         cv = p.env.get(cur)
         bumped = isinstance(cv, tuple) and cv[0] == "binop" and cv[1] == "Add" and const_int(cv[3]) == 1 and ((isinstance(cv[2], tuple) and cv[2][0] == "havoc" and cv[2][1] == cur) or cv[2] == IDX)
         if fl is True and ws is True:
-            ctx.check(bumped and unchanged(p, flag), R, PFB, inst + ":cursor", "cursor += 1, flag kept",
+            ctx.check(bumped and unchanged(p, flag), R, SFN, inst + ":cursor", "cursor += 1, flag kept",
                       "a leading blank byte does not advance the first-non-blank cursor by one (cursor = %s, flag = %s)" % (term_str(cv), term_str(p.env.get(flag))), sp_)
         else:
-            ctx.check(unchanged(p, cur) and const_of(p.env.get(flag)) is False, R, PFB, inst + ":cursor", "cursor kept, flag := false",
+            ctx.check(unchanged(p, cur) and const_of(p.env.get(flag)) is False, R, SFN, inst + ":cursor", "cursor kept, flag := false",
                       "a byte that is not a leading blank %s" % ("moves the cursor (%s)" % term_str(cv) if not unchanged(p, cur) else "leaves the trimming flag %s" % term_str(p.env.get(flag))), sp_)
     need = {(False, True, True), (False, True, False), (False, False, None)}
-    ctx.check(need <= seen_rows and any(r[0] for r in seen_rows), R, PFB, "rows", "newline / leading blank / first non-blank / later byte all handled",
+    ctx.check(need <= seen_rows and any(r[0] for r in seen_rows), R, SFN, "rows", "newline / leading blank / first non-blank / later byte all handled",
               "scan loop rows %s do not cover newline, leading blank, first non-blank and later bytes" % sorted(seen_rows, key=str), fn_span(body), nontrivial=False)
 
 
@@ -156,25 +157,25 @@ def scan_transfer_flag(ctx, body, paths, guards, flag):
     inloop = [(bb, g) for bb, g in guards.items() if body.in_any_loop(bb)]
     atend = [(bb, g) for bb, g in guards.items() if not body.in_any_loop(bb)]
     if len(inloop) != 1 or len(atend) != 1:
-        ctx.violation(R, PFB, "sites", "expected one in-loop and one end-of-input recording site, found %d and %d" % (len(inloop), len(atend)), fn_span(body))
+        ctx.violation(R, SFN, "sites", "expected one in-loop and one end-of-input recording site, found %d and %d" % (len(inloop), len(atend)), fn_span(body))
         return
     (ibb, (S, IDX, _, ie)), (ebb, (S2, E2, _, ee)) = inloop[0], atend[0]
 
     def hl(t):
         return t[1] if isinstance(t, tuple) and t and t[0] == "havoc" else None
     start = hl(S)
-    ctx.check(start is not None and hl(S2) == start, R, PFB, "start-role", "both sites record (start, ..) with the same line-start variable",
+    ctx.check(start is not None and hl(S2) == start, R, SFN, "start-role", "both sites record (start, ..) with the same line-start variable",
               "the two recording sites do not use one line-start variable (%s vs %s)" % (term_str(S), term_str(S2)), fn_span(body))
-    ctx.check(length_of(E2) is not None and length_of(E2) == ("param", 1), R, PFB, "end-of-input-bound", "(start, bytes.len())",
+    ctx.check(length_of(E2) is not None and length_of(E2) == ("param", 1), R, SFN, "end-of-input-bound", "(start, bytes.len())",
               "the end-of-input site records %s as the line end, expected bytes.len()" % term_str(E2), body.span_of(ebb))
     if start is None or hl(S2) != start:
         return
     header = next((h for h, blks in body.loops.items() if ibb in blks), None)
     backs = [p for p in paths if p.end[0] == "back" and p.end[1] == header]
-    ctx.floor(R, PFB, "scan-loop back-edge paths", len(backs), 4)
+    ctx.floor(R, SFN, "scan-loop back-edge paths", len(backs), 4)
     item = IDX[1] if isinstance(IDX, tuple) and IDX[0] == "field" and IDX[2] == 0 else None
     ctx.check(item is not None and bool(find_calls(item, "Enumerate<I> as std::iter::Iterator>::next")) and bool(find_calls(item, "[T]>::iter")) and mentions(item, lambda s: s == ("param", 1)),
-              R, PFB, "index-role", "the line end recorded in the loop is the enumerate() index over bytes.iter()",
+              R, SFN, "index-role", "the line end recorded in the loop is the enumerate() index over bytes.iter()",
               "the in-loop line end %s is not the position of the current byte of `bytes`" % term_str(IDX), body.span_of(ibb))
     if item is None:
         return
@@ -194,8 +195,8 @@ def scan_transfer_flag(ctx, body, paths, guards, flag):
             for x in subterms(c.term):
                 if x[0] == "havoc" and len(x) > 3 and x[1] in (start, flag):
                     inits[x[1]] = x[3]
-    ctx.check(const_int(S[3]) == 0 if len(S) > 3 else False, R, PFB, "init:start", "starts at 0", "the line start does not start at 0", fn_span(body), nontrivial=False)
-    ctx.check(const_of(inits.get(flag)) is True, R, PFB, "init:flag", "the blank flag starts set", "the blank-so-far flag starts as %s" % term_str(inits.get(flag)), fn_span(body), nontrivial=False)
+    ctx.check(const_int(S[3]) == 0 if len(S) > 3 else False, R, SFN, "init:start", "starts at 0", "the line start does not start at 0", fn_span(body), nontrivial=False)
+    ctx.check(const_of(inits.get(flag)) is True, R, SFN, "init:flag", "the blank flag starts set", "the blank-so-far flag starts as %s" % term_str(inits.get(flag)), fn_span(body), nontrivial=False)
     rows = set()
     for p in backs:
         nl = ws = fl = None
@@ -215,25 +216,25 @@ def scan_transfer_flag(ctx, body, paths, guards, flag):
         rows.add((nl, ws))
         sp_ = body.span_of(p.blocks[-2]) if len(p.blocks) > 1 else fn_span(body)
         if nl is None:
-            ctx.violation(R, PFB, inst, "a scan-loop iteration does not test the current byte against '\\n'", sp_)
+            ctx.violation(R, SFN, inst, "a scan-loop iteration does not test the current byte against '\\n'", sp_)
             continue
         sv = p.env.get(start)
         fv = p.env.get(flag)
         if nl:
             ok = isinstance(sv, tuple) and sv[0] == "binop" and sv[1] == "Add" and sv[2] == IDX and const_int(sv[3]) == 1 and const_of(fv) is True and (pushed == (fl is False))
-            ctx.check(ok, R, PFB, inst, "record iff not blank; line start := idx + 1; flag := set",
+            ctx.check(ok, R, SFN, inst, "record iff not blank; line start := idx + 1; flag := set",
                       "after a newline: start=%s flag=%s recorded=%s (flag was %s)" % (term_str(sv), term_str(fv), pushed, fl), sp_)
         elif ws is False:
-            ctx.check(unchanged(p, start) and const_of(fv) is False and not pushed, R, PFB, inst, "a non-blank byte clears the flag, start kept",
+            ctx.check(unchanged(p, start) and const_of(fv) is False and not pushed, R, SFN, inst, "a non-blank byte clears the flag, start kept",
                       "a non-blank byte leaves flag=%s start %s" % (term_str(fv), "moved" if not unchanged(p, start) else "kept"), sp_)
         else:
-            ctx.check(unchanged(p, start) and unchanged(p, flag) and not pushed and ws is True, R, PFB, inst, "a blank byte changes nothing",
+            ctx.check(unchanged(p, start) and unchanged(p, flag) and not pushed and ws is True, R, SFN, inst, "a blank byte changes nothing",
                       "a byte that was not shown to be non-blank changes the state (flag=%s)" % term_str(fv), sp_)
-    ctx.check({(True, None)} <= {(r[0], None) for r in rows if r[0]} and (False, False) in rows and (False, True) in rows, R, PFB, "rows", "newline / blank byte / non-blank byte all handled",
+    ctx.check({(True, None)} <= {(r[0], None) for r in rows if r[0]} and (False, False) in rows and (False, True) in rows, R, SFN, "rows", "newline / blank byte / non-blank byte all handled",
               "scan loop rows %s do not cover newline, blank and non-blank bytes" % sorted(rows, key=str), fn_span(body), nontrivial=False)
     # the end-of-input site is reached only after the loop and records iff the flag is clear (its guard was identified by flag_guard)
-    ctx.ok("D3-LINE-GUARD", PFB, "in-loop:guarded", "recorded iff the blank-so-far flag is clear", body.span_of(ibb))
-    ctx.ok("D3-LINE-GUARD", PFB, "end-of-input:guarded", "recorded iff the blank-so-far flag is clear", body.span_of(ebb))
+    ctx.ok("D3-LINE-GUARD", SFN, "in-loop:guarded", "recorded iff the blank-so-far flag is clear", body.span_of(ibb))
+    ctx.ok("D3-LINE-GUARD", SFN, "end-of-input:guarded", "recorded iff the blank-so-far flag is clear", body.span_of(ebb))
 
 
 def bytews_sites(ctx, fn, rule="D4-BYTEWS"):
@@ -709,8 +710,24 @@ def run(ctx):
         ctx.floor("D1-ARG-TAIL", EFB, "paths with an argument", tails, 18)
 
     # ---- D2 / D3 on Plist::from_bytes
-    body = ctx.body(PFB)
-    paths = ctx.paths(PFB)
+    global SFN
+    SFN = PFB
+    pbody = ctx.body(PFB)
+    ppaths = ctx.paths(PFB)
+    # the scan may live in a helper that takes the same bytes and returns the recorded (start, end) pairs
+    scan_call = None
+    if ppaths:
+        hs = set()
+        for p in ppaths:
+            for e in p.events:
+                if e.kind == "call" and ctx.fx.fn(e.name) is not None and tuple(strip_refs(a_) for a_ in e.args) == (("param", 1),) and "(usize, usize)" in e.dest["ty"] \
+                        and e.dest["ty"].replace(" ", "").startswith("std::vec::Vec<(usize,usize)"):
+                    hs.add(e.name)
+        if len(hs) == 1 and ctx.paths(next(iter(hs))):
+            SFN = next(iter(hs))
+            scan_call = SFN
+    body = ctx.body(SFN)
+    paths = ctx.paths(SFN)
     if paths:
         # D3 guards
         guards = {}
@@ -771,7 +788,7 @@ def run(ctx):
                         if isinstance(c.term, tuple) and c.term[0] == "havoc" and body.f["locals"][c.term[1]]["ty"] == "bool" and c.fact == ("eq", False):
                             flag_guard.setdefault(e.bb, set()).add(c.term[1])
                 guards[e.bb] = (S, E, atoms, e)
-        ctx.floor("D3-LINE-GUARD", PFB, "line-recording sites", len(guards), 2)
+        ctx.floor("D3-LINE-GUARD", SFN, "line-recording sites", len(guards), 2)
         flag_form = len(guards) == 2 and all(not g[2] for g in guards.values()) and len(flag_guard) == 2 and len(set.intersection(*flag_guard.values())) == 1
         if flag_form:
             scan_transfer_flag(ctx, body, paths, guards, next(iter(set.intersection(*flag_guard.values()))))
@@ -782,11 +799,11 @@ def run(ctx):
             guards_for_cmp = guards
         for bb, (S, E, atoms, e) in sorted(guards_for_cmp.items()):
             site = "in-loop" if body.in_any_loop(bb) else "end-of-input"
-            ctx.check(len(atoms) >= 1, "D3-LINE-GUARD", PFB, "%s:guarded" % site, "%d guard atoms against the line end" % len(atoms),
+            ctx.check(len(atoms) >= 1, "D3-LINE-GUARD", SFN, "%s:guarded" % site, "%d guard atoms against the line end" % len(atoms),
                       "the %s recording site is not guarded by a comparison with the line end" % site, body.span_of(bb))
             for (x, k, cbb) in atoms:
                 nm = body.local_name(x[1]) if isinstance(x, tuple) and x[0] == "havoc" else term_str(x)
-                ctx.check(k == 0, "D3-LINE-GUARD", PFB, "%s:%s" % (site, nm), "%s < end (k=0)" % nm,
+                ctx.check(k == 0, "D3-LINE-GUARD", SFN, "%s:%s" % (site, nm), "%s < end (k=0)" % nm,
                           "%s site requires `%s %s end` (difference bound k=%d): %s" % (
                               site, nm, "+ %d <" % (-k) if k < 0 else ("<=" if k == 1 else "< (k=%d)" % k), k,
                               "a line whose content is %d byte(s) long is dropped" % (-k) if k < 0 else "a line with no content is recorded"),
@@ -796,7 +813,7 @@ def run(ctx):
             # sibling agreement: the variable tested at both sites is the first-non-blank cursor; both sites must test it alike
             common = [l for l in shapes[0] if l is not None and l in shapes[1]]
             ok_s = bool(common) and all(shapes[0][l] == shapes[1][l] for l in common)
-            ctx.check(ok_s, "D3-SIBLING", PFB, "cursor-test", "both sites test the non-blank cursor alike",
+            ctx.check(ok_s, "D3-SIBLING", SFN, "cursor-test", "both sites test the non-blank cursor alike",
                       "the in-loop and end-of-input sites test the non-blank cursor differently (%s vs %s)" % (shapes[0], shapes[1]), fn_span(body))
         # D3 transfer table of the scan loop: the per-byte update of (line start, first-non-blank cursor, trimming flag)
         if not flag_form:
@@ -804,7 +821,14 @@ def run(ctx):
         # D2 producer: entries = [PlistEntry::from_bytes(&bytes[s..e])? for (s, e) in recorded lines], in recording order; recognised as a push loop
         #              or as lines.into_iter().map(..).collect::<Result<Vec<_>>>()? (lib.accumulation)
         rec = {g[3].args[0][1][1] for g in guards.values() if isinstance(g[3].args[0], tuple) and g[3].args[0][0] == "refmut" and isinstance(g[3].args[0][1], tuple) and g[3].args[0][1][0] == "loc"}
-        oks = [p for p in ret_paths(paths) if unwrap_ok(p.end[1]) is not None]
+        in_rec = lambda t_: mentions(t_, lambda s_: s_[0] in ("havoc", "mutated", "loc") and s_[1] in rec)
+        if scan_call:
+            # helper form: the helper returns the vector it recorded into, and from_bytes builds the entries from that call's result
+            rets = ret_paths(paths)
+            ctx.check(bool(rets) and all(isinstance(p.end[1], tuple) and p.end[1][0] in ("havoc", "mutated", "loc") and p.end[1][1] in rec for p in rets), "D2-PRODUCER", SFN, "returns-recorded",
+                      "the scan helper returns the recorded lines", "the scan helper does not return the vector its recording sites push onto", fn_span(body))
+            in_rec = lambda t_: bool(find_calls(t_, scan_call))
+        oks = [p for p in ret_paths(ppaths) if unwrap_ok(p.end[1]) is not None]
         ctx.floor("D2-PRODUCER", PFB, "Ok-returning paths", len(oks), 1)
         accs = []
         if guards and direct == set(guards):
@@ -812,11 +836,11 @@ def run(ctx):
             # by construction, and nothing else may touch them
             retd = all(mentions(unwrap_ok(p.end[1]), lambda s_: s_[0] in ("havoc", "mutated")) or (agg_variant(unwrap_ok(p.end[1])) and "entries" in (unwrap_ok(p.end[1])[5] or ())) for p in oks)
             ctx.check(retd, "D2-PRODUCER", PFB, "push@entries", "entries = from_bytes(&bytes[s..e])? pushed at each recording site, in scan order (single-pass form)",
-                      "the entries pushed at the recording sites are not what is returned", fn_span(body))
+                      "the entries pushed at the recording sites are not what is returned", fn_span(pbody))
             only_appended(ctx, "D2-PRODUCER", PFB, "plist.entries", lambda t: mentions(t, lambda s: s[0] == "field" and s[3] == "entries"))
             oks = []
         elif direct:
-            ctx.violation("D2-PRODUCER", PFB, "push@entries", "the recording sites mix the two-pass and the single-pass spelling", fn_span(body))
+            ctx.violation("D2-PRODUCER", PFB, "push@entries", "the recording sites mix the two-pass and the single-pass spelling", fn_span(pbody))
             oks = []
         for p in oks[:1]:
             v = unwrap_ok(p.end[1])
@@ -826,7 +850,7 @@ def run(ctx):
                 ent = dict(zip(v[5], av[2])).get("entries")
             elif isinstance(v, tuple) and v[0] in ("havoc", "mutated"):
                 ent = ("field", v, 0, "entries")
-            acc = accumulation(ctx, PFB, ent, paths) if ent is not None else None
+            acc = accumulation(ctx, PFB, ent, ppaths) if ent is not None else None
             accs.append(acc)
             ok = acc is not None
             why = "the returned entries are not built one per recorded line (no push loop / map+collect over the recorded lines was recognised)"
@@ -846,20 +870,21 @@ def run(ctx):
                         f1 = [x for x in subterms(rg[1]) if x[0] == "field" and x[2] in (0, 1)]
                         ok = bool(f0) and bool(f1) and f0[0][2] == 0 and f1[0][2] == 1
                         why = "the entry is cut as bytes[%s..%s], not bytes[start..end] of the recorded pair" % (term_str(rg[0])[:40], term_str(rg[1])[:40])
-                ok = ok and (bool(acc["locals"] & rec) or mentions(acc["src"], lambda s_: s_[0] in ("havoc", "mutated", "loc") and s_[1] in rec))
-                if fb and not (bool(acc["locals"] & rec) or mentions(acc["src"], lambda s_: s_[0] in ("havoc", "mutated", "loc") and s_[1] in rec)):
+                from_rec = (bool(acc["locals"] & rec) and not scan_call) or in_rec(acc["src"])
+                ok = ok and from_rec
+                if fb and not from_rec:
                     why = "the entries are built from %s, not from the recorded lines" % term_str(acc["src"])[:80]
-            ctx.check(ok, "D2-PRODUCER", PFB, "push@entries", "entries = from_bytes(&bytes[s..e])? for each recorded (s,e), in order (%s form)" % (acc["form"] if acc else "?"), why, fn_span(body))
+            ctx.check(ok, "D2-PRODUCER", PFB, "push@entries", "entries = from_bytes(&bytes[s..e])? for each recorded (s,e), in order (%s form)" % (acc["form"] if acc else "?"), why, fn_span(pbody))
         if accs and accs[0] is not None and accs[0]["form"] == "loop":
             only_appended(ctx, "D2-PRODUCER", PFB, "plist.entries", lambda t: mentions(t, lambda s: s[0] == "field" and s[3] == "entries"))
         recl = rec
         if not direct:
-            only_appended(ctx, "D2-PRODUCER", PFB, "recorded-lines", lambda t: isinstance(t, tuple) and t[0] == "loc" and t[1] in recl, floor=2)
-        errprop(ctx, PFB, paths, body, rule="D2-ERRPROP", no_effects_after_error=("Vec::push",), floor=1)
+            only_appended(ctx, "D2-PRODUCER", SFN, "recorded-lines", lambda t: isinstance(t, tuple) and t[0] == "loc" and t[1] in recl, floor=2)
+        errprop(ctx, PFB, ppaths, pbody, rule="D2-ERRPROP", no_effects_after_error=("Vec::push",), floor=1)
 
     # ---- D4
     # blank tests tabulated over all 256 byte values (any spelling); the command word's own separator test (`== b' '`) is not a blank test
-    check_blank_sets(ctx, "D4-BLANKSET", PFB, floor=1)
+    check_blank_sets(ctx, "D4-BLANKSET", SFN, floor=1)
     check_blank_sets(ctx, "D4-BLANKSET", EFB, floor=1, ignore=lambda acc: acc == {" "})
-    n = bytews_sites(ctx, PFB) + bytews_sites(ctx, EFB)
+    n = bytews_sites(ctx, SFN) + bytews_sites(ctx, EFB) + (bytews_sites(ctx, PFB) if SFN != PFB else 0)
     ctx.note("unicode char predicate sites in the two scanners: %d" % n)
